@@ -357,6 +357,62 @@ theorem colliding_grids_share_instance {G : Type} (hash : G → GridId) (e : Ele
     step e s (.req (some (hash g1)) none w) = step e s (.req (some (hash g2)) none w) := by
   rw [h]
 
+/-! ### Grids that differ in their weights only
+
+`Grid.__eq__` and `Grid.__hash__` ignore the weights (C10: equality is about coordinates), instances do not.  The
+executed key function `gridKey` (what `_get_grid_key` computes after repair D505; every `req`/`reqc` of the driver runs it)
+is faithful for grids = (coordinates, weights); the unrepaired key part `hash(grid)` is not. -/
+
+/-- **The repaired key discharges `HashFaithful` for grids with weights**: grids that differ in their coordinates *or*
+in their weights get different ids (given that the digests of coordinates and weights themselves do not collide —
+that part stays C10's hash assumption). -/
+theorem gridKey_faithful : HashFaithful gridKey := fun _ _ h => gridKey_injective h
+
+/-- The unrepaired key part (`hash(grid)`, coordinates only) is not faithful. -/
+theorem coords_key_not_faithful : ¬ HashFaithful Mutant.gridKeyCoords := by
+  intro h
+  have := h ⟨1, 1⟩ ⟨1, 2⟩ rfl
+  cases this
+
+/-- **Defect D505 (clean tree)**: with the coordinates-only key, a grid with equal coordinates and other weights is
+answered exactly like the first grid, in every state and at every wavelength — it is handed the first grid's
+instance. -/
+theorem coords_key_shares_instance (e : Elem) (s : St) (c w1 w2 : Nat) (wl : Option WlKey) :
+    step e s (.req (some (Mutant.gridKeyCoords ⟨c, w1⟩)) none wl)
+      = step e s (.req (some (Mutant.gridKeyCoords ⟨c, w2⟩)) none wl) :=
+  colliding_grids_share_instance Mutant.gridKeyCoords e s ⟨c, w1⟩ ⟨c, w2⟩ wl rfl
+
+/-- **With the repaired key, grids that differ in weights only never share an instance**: two forward requests (any
+two reachable states of a grid-dependent element) handed instances made for the same key were made on grids with the
+same coordinates and the same weights. -/
+theorem weights_distinguish_instances {e : Elem} (hT : Truthful e) (hmax : 1 ≤ e.maxN)
+    (hg : e.gridDep = true) {s1 s2 : St} (h1 : Inv e s1) (h2 : Inv e s2) (g1 g2 : Grid)
+    (w : Option WlKey) (k : Key) (v1 v2 : Nat)
+    (r1 : (step e s1 (.req (some (gridKey g1)) none w)).2 = .inst k v1)
+    (r2 : (step e s2 (.req (some (gridKey g2)) none w)).2 = .inst k v2) :
+    g1.coord = g2.coord ∧ g1.weights = g2.weights := by
+  have := distinct_grids_distinct_instances gridKey gridKey_faithful hT hmax hg h1 h2 g1 g2 w k v1 v2 r1 r2
+  subst this
+  exact ⟨rfl, rfl⟩
+
+/-- **Transparency for histories on actual grids** (coordinates and weights) seen through the executed key: the
+shared element answers every request as a fresh element does, and (by `gridKey_faithful`) the key of the instance
+handed out determines coordinates and weights of the grids it was made for. -/
+theorem transparent_on_grids {e : Elem} (hT : Truthful e) (hmax : 1 ≤ e.maxN) (ver : Nat) (ops : List OpG) :
+    run e (St.init ver) (ops.map (OpG.toOp gridKey)) = specRun e ver (ops.map (OpG.toOp gridKey)) :=
+  transparent hT hmax ver _
+
+/-- The same histories through the coordinates-only key are *not* transparent with respect to the grids: a concrete
+history (forward on a grid, forward on a grid with the same coordinates and other weights) in which the second
+request is answered `hit` by the first grid's instance, while the executed key creates a second instance. -/
+theorem coords_key_history_counterexample :
+    let e : Elem := ⟨true, true, 11, fun _ _ _ => none, fun _ _ g => some g⟩
+    let ops : List OpG := [.req (some ⟨1, 1⟩) none (some 5), .req (some ⟨1, 2⟩) none (some 5)]
+    (run e (St.init 0) (ops.map (OpG.toOp Mutant.gridKeyCoords))).getLast? =
+        (run e (St.init 0) (ops.map (OpG.toOp Mutant.gridKeyCoords))).head? ∧
+      (run e (St.init 0) (ops.map (OpG.toOp gridKey))).getLast? ≠
+        (run e (St.init 0) (ops.map (OpG.toOp gridKey))).head? := by decide
+
 /-! ## The wavelength key (the property's side condition "wavelengths at least 1e-6 apart")
 
 `wavelength_key = int(np.round(np.log(wavelength) / np.log(1 + 1e-9)))`, modelled over ℝ as
